@@ -6,16 +6,18 @@ SPEC = dict(
     level_text="For each operation (save, save-pipeline, the history update of a search) and each prepared state (notebook missing / 300 B / 5 KB, "
                "history missing / 2 / 100 entries; thorough adds 20 KB) the complete new content is taken from a fault-free run; then the child is "
                "re-run from the same state with the file-size limit set to k for every k in 0..len(new) (stride 61 plus both ends above 512 B in "
-               "quick, every k in thorough), and with a SIGKILL injected before every n-th open/write/fsync/rename/close/unlink system call "
+               "quick, every k in thorough), and with a SIGKILL injected on entering the n-th invocation of each of openat / write / fsync / rename* / close / unlink* (every (system call, n) pair the fault-free run makes, counted per call and thread as strace does) "
                "(with no limit, with a limit of len/3 and of 0, so 'killed after a short write' is covered). Afterwards the file must be byte-equal "
-               "to the previous or the new content (history: parsed entries minus timestamps), and a save that printed success must have produced the new content.",
+               "to the previous or the new content (history: parsed entries minus timestamps), and a save that printed success must have produced the new content. "
+               "A fourth flavour kills a LONG write at every system call and then performs an ordinary SHORTER write (a short save; `history --clear`): "
+               "the result must be exactly the earlier entries plus the new one / a complete empty history, so nothing a killed write left behind can leak into later content.",
     level_note="The limit applies to every regular file the child writes, so an implementation writing a temporary file first is cut in that file. "
-               "Power-loss reordering below the file-system API is not modelled. strace counts system calls per thread; kill points not reached are counted.",
+               "Power-loss reordering below the file-system API is not modelled. strace counts invocations per system call and thread; the crash points are therefore enumerated as (call name, n) pairs taken from a tracing run; points not reached are counted.",
     engines=[dict(name="crashwrite", shards=T(16, 16), timeout=T(1500, 7200), needs_wtf=True)],
     rule="case = (operation, prepared state, fault flavour, k, n); non-trivial = the fault actually hit (limit below the new length, or the child was killed); "
          "distinct by (operation, state, flavour, k, n).",
-    floors=T({"faults-efbig-biting": 600, "faults-killed": 300, "after-efbig-old": 1, "distinct_nontrivial": 900},
-             {"faults-efbig-biting": 20000, "faults-killed": 400, "after-efbig-old": 1, "distinct_nontrivial": 20000}),
+    floors=T({"faults-efbig-biting": 600, "faults-killed": 300, "killed-on:write": 50, "killed-on:fsync": 5, "killed-on:renameat": 5, "after-efbig-old": 1, "follow-up-after-kill": 15, "distinct_nontrivial": 900},
+             {"faults-efbig-biting": 20000, "faults-killed": 400, "killed-on:write": 50, "killed-on:fsync": 5, "killed-on:renameat": 5, "after-efbig-old": 1, "follow-up-after-kill": 15, "distinct_nontrivial": 20000}),
     assumptions=["a file that did not exist before and is empty afterwards counts as previous content",
                  "the Go runtime ignores SIGXFSZ, so RLIMIT_FSIZE yields a short write followed by EFBIG"],
 )
